@@ -283,6 +283,40 @@ pub fn run(ctx: &Ctx, rep: &mut Report) {
             b = Built { case: c, images, desc: format!("combo {} bits {:b}", combo, bits) };
             mode = if is_async_prop { "async" } else { "blocking" };
             rep.count("compose-cases");
+        } else if ctx.sub == "sched" {
+            // C08: every schedule prefix of 10 polls x 8 Pending patterns for tiny configurations
+            let combo = idx >> 13;
+            let bits = idx & 0x1fff;
+            let mut crng = Rng::derive(ctx.seed, combo, 0x5C);
+            si = shapes[crng.below(shapes.len() as u64) as usize];
+            let d = &ctx.zoo[si].desc;
+            let (msgs, images) = gen_msgs(d, &mut crng, 1 + (combo % 2) as usize, 3);
+            let n: usize = images.iter().map(|i| i.len()).sum();
+            let largest = images.iter().map(|i| i.len()).max().unwrap_or(0).max(d.min_size());
+            let mut c = base_case(msgs, largest, n);
+            c.capacity = 1 + (combo % 3) as usize;
+            c.schedule = (0..10).map(|i| ((bits >> i) & 1) as u8).collect();
+            let pat = (bits >> 10) & 7;
+            let mk = |period: usize, phase: usize, len: usize| (0..len).map(|i| ((i + phase) % period == 0) as u8).collect::<Vec<u8>>();
+            let (pw, pr): (Vec<u8>, Vec<u8>) = match pat {
+                0 => (vec![], vec![]),
+                1 => (mk(1, 0, 3), vec![]),
+                2 => (vec![], mk(1, 0, 3)),
+                3 => (mk(2, 0, 12), mk(2, 1, 12)),
+                4 => (mk(2, 1, 12), mk(2, 0, 12)),
+                5 => (mk(3, 0, 18), mk(3, 0, 18)),
+                6 => (mk(1, 0, 2), mk(1, 0, 2)),
+                _ => (mk(3, 1, 18), mk(2, 0, 12)),
+            };
+            c.pend_w = pw;
+            c.pend_r = pr;
+            c.flush_pending = (combo % 2) as usize;
+            c.wake_driven = combo % 4 >= 2;
+            c.monitored = combo % 2 == 0;
+            c.max_polls = 50_000;
+            b = Built { case: c, images, desc: format!("combo {} schedule {:010b} pending pattern {}", combo, bits & 0x3ff, pat) };
+            mode = "async";
+            rep.count("sched-cases");
         } else if ctx.sub == "enum" {
             // C09: every stream position x fault kind x (one-shot | persistent) x side x mode for a small message sequence
             let combo = idx / 3072;
